@@ -81,16 +81,17 @@ def main():
     if not args:
         print(__doc__); sys.exit(2)
     prop = args[0]
-    name = None; jobs = 8; keep = False; jout = None; build = False
+    name = None; jobs = 8; keep = False; jout = None; build = False; prefix = None
     i = 1
     while i < len(args):
         if args[i] == "--name": name = args[i+1]; i += 2
         elif args[i] == "--jobs": jobs = int(args[i+1]); i += 2
+        elif args[i] == "--prefix": prefix = args[i+1]; i += 2
         elif args[i] == "--json": jout = args[i+1]; i += 2
         elif args[i] == "--keep": keep = True; i += 1
         elif args[i] == "--build": build = True; i += 1
         else: i += 1
-    vs = [v for v in load_corpus() if (prop == "all" or v["prop"] == prop) and (name is None or v["name"] == name)]
+    vs = [v for v in load_corpus() if (prop == "all" or v["prop"] == prop) and (name is None or v["name"] == name) and (prefix is None or v["name"].startswith(prefix))]
     results = []
     with concurrent.futures.ThreadPoolExecutor(max_workers=jobs) as ex:
         for r in ex.map(lambda v: run_variant(v, build, keep), vs):
